@@ -4,6 +4,7 @@ import (
 	"context"
 	"database/sql"
 	"encoding/json"
+	"errors"
 	"fmt"
 	"os"
 	"path/filepath"
@@ -39,7 +40,7 @@ import (
 // appears, a new write is accepted and the configuration is still the file's.
 
 type c33Op struct {
-	Kind string `json:"k"` // ins mix fk async snap load boot isolate heal run
+	Kind string `json:"k"` // ins req mix fk async snap load boot isolate heal run
 	N    int    `json:"n,omitempty"`
 	M    int    `json:"m,omitempty"`
 	Ms   int    `json:"ms,omitempty"`
@@ -56,10 +57,15 @@ type c33Recovery struct {
 	Mode    string    `json:"mode"`    // stop | stop-nosnap | crash
 	Peers   []c33Peer `json:"peers"`   // content of the peers file, same on every recovered node
 	MoveTo  int       `json:"move_to"` // primary victim restarts on host 10.0.0.<MoveTo> (0 = same address)
-	// CrashAt: the primary victim's process dies at this point INSIDE the recovery
-	// (directory image taken at the hook), and is then started again on that image,
-	// peers.json still in place ("" = recovery runs to completion the first time).
-	CrashAt string `json:"crash_at,omitempty"`
+	// Inject: something goes wrong DURING the primary victim's first recovery
+	// attempt, at the k-th occurrence (k = 1 + K mod N, N learnt by a counting
+	// pre-run on a saved copy of the directory) of ANY hook point that fires while
+	// the node opens (RecoverNode, snapshot sink/store/staging/plan code, restore).
+	// "crash": the process dies there (directory image taken at the hook) and is
+	// started again on the image, peers.json still in place. "error": that point
+	// returns an I/O error; if Open fails the node is simply started again.
+	Inject string `json:"inject,omitempty"`
+	K      int    `json:"inject_k,omitempty"`
 }
 
 type c33Scenario struct {
@@ -99,8 +105,11 @@ func c33Gen(r *core.Rand, tier string) any {
 			continue
 		}
 		switch {
-		case x < 30:
+		case x < 18:
 			sc.Ops = append(sc.Ops, c33Op{Kind: "ins", N: r.Range(1, 6)})
+		case x < 30:
+			// writes through the unified request API (pure write / read+write, with / without transaction)
+			sc.Ops = append(sc.Ops, c33Op{Kind: "req", N: r.Range(1, 3), M: r.Intn(4)})
 		case x < 50:
 			sc.Ops = append(sc.Ops, c33Op{Kind: "mix", N: r.Intn(1000)})
 		case x < 62:
@@ -166,8 +175,10 @@ func c33Gen(r *core.Rand, tier string) any {
 		j := r.Intn(i + 1)
 		rec.Peers[i], rec.Peers[j] = rec.Peers[j], rec.Peers[i]
 	}
-	if r.Bool(0.25) {
-		rec.CrashAt = c33CrashPoints[r.Intn(len(c33CrashPoints))]
+	if x := r.Intn(100); x < 22 {
+		rec.Inject, rec.K = "crash", r.Intn(1000)
+	} else if x < 40 {
+		rec.Inject, rec.K = "error", r.Intn(1000)
 	}
 	// second round: needs a working cluster after the first one (kinds 0, 1, 3)
 	if (kind == 0 || kind == 1 || kind == 3) && r.Bool(0.5) {
@@ -176,8 +187,10 @@ func c33Gen(r *core.Rand, tier string) any {
 			switch {
 			case sc.Knobs.FKConstraints && x < 20:
 				sc.Ops2 = append(sc.Ops2, c33Op{Kind: "fk", N: r.Intn(1000)})
-			case x < 45:
+			case x < 33:
 				sc.Ops2 = append(sc.Ops2, c33Op{Kind: "ins", N: r.Range(1, 5)})
+			case x < 45:
+				sc.Ops2 = append(sc.Ops2, c33Op{Kind: "req", N: r.Range(1, 3), M: r.Intn(4)})
 			case x < 60:
 				sc.Ops2 = append(sc.Ops2, c33Op{Kind: "mix", N: r.Intn(1000)})
 			case x < 85:
@@ -198,15 +211,15 @@ func c33Gen(r *core.Rand, tier string) any {
 			// every member of the recovered cluster, same file everywhere, same addresses
 			r2.Victims = []int{-1}
 		}
-		if r.Bool(0.2) {
-			r2.CrashAt = c33CrashPoints[r.Intn(len(c33CrashPoints))]
+		if x := r.Intn(100); x < 15 {
+			r2.Inject, r2.K = "crash", r.Intn(1000)
+		} else if x < 30 {
+			r2.Inject, r2.K = "error", r.Intn(1000)
 		}
 		sc.Rec2 = r2
 	}
 	return sc
 }
-
-var c33CrashPoints = []string{"store.recover.after-restore", "store.recover.after-replay", "store.recover.after-snapshot", "store.recover.after-log-delete"}
 
 // ---------------------------------------------------------------- SQL workload (deterministic: no time, no random)
 
@@ -330,18 +343,25 @@ type c33Victim struct {
 }
 
 type c33Run struct {
-	c        *core.Ctx
-	s        *sim.Sim
-	sc       *c33Scenario
-	members  []*node.Node // nodes of the current cluster (1-based positions in op selectors)
-	nextK    int
-	loadGen  int
-	lagging  bool // some node may be behind: only inserts from now on (so that "contains" is well defined)
-	armDir   string
-	armPoint string
-	armImg   string
-	armed    bool
+	c       *core.Ctx
+	s       *sim.Sim
+	sc      *c33Scenario
+	members []*node.Node // nodes of the current cluster (1-based positions in op selectors)
+	nextK   int
+	loadGen int
+	lagging bool // some node may be behind: only inserts from now on (so that "contains" is well defined)
+	// fault injection inside a recovery attempt (see c33Recovery.Inject)
+	hookOn   bool   // hook points are being counted (only while the primary victim opens, nothing else runs)
+	hookMode string // count | crash | error
+	hookK    int    // act at this occurrence
+	hits     int
+	hitPoint string
+	hookDir  string
+	hookImg  string
+	imgOK    bool
 }
+
+var errC33Injected = errors.New("verif: injected I/O error")
 
 func c33RunFn(c *core.Ctx, raw json.RawMessage) {
 	var sc c33Scenario
@@ -418,16 +438,28 @@ func c33RunFn(c *core.Ctx, raw json.RawMessage) {
 	}
 }
 
-// hit is the verifhook handler: takes the crash image of the armed directory
-// at the armed point, once.
+// hit is the verifhook handler. Only active while the primary victim opens.
 func (x *c33Run) hit(point string) error {
-	if x.armed && point == x.armPoint {
-		x.armed = false
-		os.RemoveAll(x.armImg)
-		if err := node.CopyTree(x.armDir, x.armImg); err != nil {
+	if !x.hookOn {
+		return nil
+	}
+	x.hits++
+	if x.hits != x.hookK {
+		return nil
+	}
+	point = strings.ReplaceAll(point, x.s.Dir, "") // some point names carry a file path
+	switch x.hookMode {
+	case "crash":
+		x.hitPoint = point
+		os.RemoveAll(x.hookImg)
+		if err := node.CopyTree(x.hookDir, x.hookImg); err != nil {
 			x.c.Log.Add("crash image failed: %v", err)
-			x.armImg = ""
+		} else {
+			x.imgOK = true
 		}
+	case "error":
+		x.hitPoint = point
+		return errC33Injected
 	}
 	return nil
 }
@@ -448,6 +480,32 @@ func (x *c33Run) history(ops []c33Op) bool {
 				x.nextK++
 				if ok, _, _ := opsExec(s, l, c33Insert(x.nextK)); ok {
 					c.Probe("writes_acked")
+				}
+			}
+		case "req":
+			// Store.Request (what /db/request uses): the log entry is an EXECUTE_QUERY
+			// command that changes the database. Inserts only, so it may sit in a tail.
+			if l == nil {
+				continue
+			}
+			eqr := &proto.ExecuteQueryRequest{Request: &proto.Request{Transaction: op.M&1 == 1}}
+			if op.M&2 == 2 {
+				eqr.Request.Statements = append(eqr.Request.Statements, &proto.Statement{Sql: "SELECT COUNT(*) FROM t"})
+			}
+			for k := 0; k < op.N; k++ {
+				x.nextK++
+				eqr.Request.Statements = append(eqr.Request.Statements, &proto.Statement{Sql: c33Insert(x.nextK)})
+			}
+			if op.M&2 == 2 {
+				eqr.Request.Statements = append(eqr.Request.Statements, &proto.Statement{Sql: "SELECT MAX(v) FROM t"})
+			}
+			var rerr error
+			var idx uint64
+			s.Do("request "+l.ID, 60*time.Second, func() { _, _, idx, rerr = l.Store.Request(context.Background(), eqr) })
+			if rerr == nil && idx > 0 {
+				c.Probe("unified_request_writes_acked")
+				if op.M&2 == 2 {
+					c.Probe("unified_request_read_write_acked")
 				}
 			}
 		case "mix", "fk":
@@ -717,28 +775,87 @@ func (x *c33Run) recoverRound(rec c33Recovery, round int) (recovered []*node.Nod
 			}
 			return true
 		}
-		if k == 0 && rec.CrashAt != "" {
-			// the process dies inside the recovery: image at the hook, the attempt itself
-			// is thrown away, and the node is started again on the image
-			x.armDir, x.armPoint, x.armImg, x.armed = nn.Dir, rec.CrashAt, nn.Dir+".rimg", true
-			if !open("recover-open(to be crashed at " + rec.CrashAt + ")") {
+		tryOpen := func(what string) (bool, error) {
+			var err error
+			x.hits, x.hitPoint, x.imgOK = 0, "", false
+			x.hookOn = true
+			fin := s.Do(fmt.Sprintf("%s %s@%s", what, nn.ID, nn.HostName), 300*time.Second, func() { err = nn.Start() })
+			x.hookOn = false
+			return fin, err
+		}
+		restoreDir := func(from string) bool {
+			os.RemoveAll(nn.Dir)
+			if err := os.Rename(from, nn.Dir); err != nil {
+				c.Discard("dir-restore: " + err.Error())
+				return false
+			}
+			return true
+		}
+		if k == 0 && rec.Inject != "" {
+			// counting pre-run on the real directory (same path), then put the saved copy back
+			bak := nn.Dir + ".bak"
+			os.RemoveAll(bak)
+			if err := node.CopyTree(nn.Dir, bak); err != nil {
+				c.Discard("dir-backup: " + err.Error())
 				return nil, false, false
 			}
-			if x.armed || x.armImg == "" {
-				x.armed = false // point not reached (or image failed): the first attempt simply counts
-				c.Probe("crash_in_recovery_point_not_reached")
-			} else {
-				nn.Store.NoSnapshotOnClose = true
-				s.Do("discard-attempt "+nn.ID, 120*time.Second, func() { nn.Stop() })
-				os.RemoveAll(nn.Dir)
-				if err := os.Rename(x.armImg, nn.Dir); err != nil {
-					c.Discard("image-rename: " + err.Error())
+			x.hookMode, x.hookK = "count", -1
+			if fin, err := tryOpen("recover-open(counting)"); !fin || err != nil {
+				c.Violate("recover-open-failed", "%s: node %s did not reopen with a valid peers file [%s] after %s (finished=%v): %v", tag, nn.ID, wantCfg, rec.Mode, fin, err)
+				return nil, false, false
+			}
+			total := x.hits
+			nn.Store.NoSnapshotOnClose = true
+			s.Do("discard-counting-attempt "+nn.ID, 120*time.Second, func() { nn.Stop() })
+			if !restoreDir(bak) {
+				return nil, false, false
+			}
+			if total == 0 {
+				c.Probe("inject_no_hook_points")
+				if !open("recover-open") {
 					return nil, false, false
 				}
-				c.Fault("crash-in-recovery@" + rec.CrashAt)
-				c.Log.Add("%d %s crash image at %s, starting again", s.StepN, tag, rec.CrashAt)
-				if !open("recover-open-after-crash-in-recovery") {
+			} else {
+				x.hookMode, x.hookK = rec.Inject, 1+rec.K%total
+				x.hookDir, x.hookImg = nn.Dir, nn.Dir+".rimg"
+				fin, err := tryOpen(fmt.Sprintf("recover-open(%s at hook occurrence %d of %d)", rec.Inject, x.hookK, total))
+				c.Log.Add("%d %s inject %s at occurrence %d/%d = %s -> finished=%v err=%v", s.StepN, tag, rec.Inject, x.hookK, total, x.hitPoint, fin, err)
+				if !fin {
+					c.Violate("recover-open-failed", "%s: recovery attempt of node %s with %s at %s did not finish", tag, nn.ID, rec.Inject, x.hitPoint)
 					return nil, false, false
+				}
+				switch {
+				case rec.Inject == "crash" && x.imgOK:
+					// the process died at the hook: throw the attempt away, start again on the image
+					if err == nil {
+						nn.Store.NoSnapshotOnClose = true
+						s.Do("discard-attempt "+nn.ID, 120*time.Second, func() { nn.Stop() })
+					} else {
+						nn.Store.VerifAbandon()
+					}
+					if !restoreDir(x.hookImg) {
+						return nil, false, false
+					}
+					c.Fault("crash-in-recovery")
+					c.Probe("crash_in_recovery@" + x.hitPoint)
+					if !open("recover-open-after-crash-in-recovery") {
+						return nil, false, false
+					}
+				case err != nil:
+					if rec.Inject != "error" || x.hitPoint == "" {
+						c.Violate("recover-open-failed", "%s: node %s did not reopen with a valid peers file [%s] after %s: %v", tag, nn.ID, wantCfg, rec.Mode, err)
+						return nil, false, false
+					}
+					// the injected I/O error made Open fail: the process exits, the operator starts it again
+					nn.Store.VerifAbandon()
+					c.Fault("io-error-in-recovery")
+					c.Probe("io_error_failed_open@" + x.hitPoint)
+					if !open("recover-open-after-io-error") {
+						return nil, false, false
+					}
+				default:
+					// the attempt went through (point not reached again, or the error was tolerated)
+					c.Probe("inject_attempt_succeeded_anyway")
 				}
 			}
 		} else if !open("recover-open") {
@@ -851,7 +968,7 @@ func (x *c33Run) recoverRound(rec c33Recovery, round int) (recovered []*node.Nod
 		}
 		c.Probe("recovered_without_quorum")
 	}
-	c.Sig(fmt.Sprintf("r%d/%s/%d/%v/%d/%s", round, rec.Mode, len(victims), primary.mayTail, len(primary.pre), rec.CrashAt))
+	c.Sig(fmt.Sprintf("r%d/%s/%d/%v/%d/%s", round, rec.Mode, len(victims), primary.mayTail, len(primary.pre), rec.Inject))
 	return recovered, functional, true
 }
 
